@@ -204,6 +204,34 @@ CHECKS["C20"] = dict(
          "statistic artists judged only where the statistics are defined; contour meshes, the -1/+1 columns of the "
          "period row and the interactive manual_window_rejection are not covered.")
 
+CHECKS["C03"] = dict(
+    engine="E2", section="4/C03",
+    text="Every list of 1-4 recordings drawn (with repetition, in every order) from a pool of distinguishable "
+         "recordings at time steps 0.01/0.02/0.05 s is run through the real process() under each of the three "
+         "dissimilar-time-step policies and four processing kinds at a fixed FFT length: exactly one row per "
+         "recording that an independent policy model retains, in input order, at exactly the requested centres, "
+         "finite and non-negative, each row bit-identical to processing that recording alone; centres above the "
+         "Nyquist of a processed recording must raise, above the Nyquist of a dropped recording must not; all two-call "
+         "histories on one settings object with explicit FFT length give the same second result as fresh settings; "
+         "undefined or negative ratios must be refused.",
+    note="At most 4 recordings and 3 time steps; majority ties accept any single maximal class; recordings are rebuilt "
+         "per call (in-place tapering is C09's subject); histories with fft n=None excluded (C09 known finding).")
+CHECKS["C04"] = dict(
+    engine="E2", section="4/C04",
+    text="For every combination of deployed orientation, target and second target from {0,30,90,200,359,-45,400,725} "
+         "orient_sensor_to is compared sample by sample with the clockwise-from-north rotation written from its "
+         "definition (vertical bit-identical, energy, label mod 360, composition, inverse); polarised motion recorded "
+         "at any deployment angle reappears on its true azimuth after re-orientation; over every configuration within "
+         "2 deviations (quick) / full product (thorough) single-azimuth HVSR at a equals the north-component HVSR of "
+         "the sensor turned by a and is 180-degree periodic, the azimuthal result is bit for bit the stack of "
+         "single-azimuth results, RotDpp is monotone in the percentile and inside (at 0/100 on) the single-azimuth "
+         "envelope, the squared-average and total-horizontal-energy families and diffuse field are orientation "
+         "invariant (geometric mean as the control that must change), and preprocess(orient=t) equals "
+         "orient-then-preprocess.",
+    note="Stated angle/azimuth/percentile alphabets, windows of 8-64 samples; 'orient to a' read relative to the "
+         "current orientation; azimuthal vs single compared at the FFT length the azimuthal run writes back; RotD0=min "
+         "and RotD100=max additionally required.")
+
 NOT_APPLICABLE = []
 
 PENDING = ["C01", "C02", "C03", "C04", "C05", "C06", "C07", "C09", "C10", "C11", "C12", "C13",
